@@ -12,6 +12,7 @@ import (
 	"github.com/honeycombio/refinery/config"
 	"github.com/honeycombio/refinery/internal/peer"
 	"github.com/honeycombio/refinery/logger"
+	"github.com/honeycombio/refinery/sharder"
 )
 
 // C18 (World D): Redis peer membership converges to the live, publishing nodes.
@@ -97,6 +98,7 @@ type peerNode struct {
 	p       *peer.RedisPubsubPeers
 	ep      *SimPubSub
 	done    chan struct{}
+	sh      *sharder.DeterministicSharder // with_sharder runs (C17)
 }
 
 func runPeers(t *testing.T, p *Plan) *Outcome {
@@ -150,6 +152,13 @@ func runPeers(t *testing.T, p *Plan) *Outcome {
 			if err := nd.p.Ready(); err != nil {
 				out.Harness = "peers ready: " + err.Error()
 				return
+			}
+			if p.On("with_sharder") {
+				nd.sh = &sharder.DeterministicSharder{Config: cfg, Logger: &logger.NullLogger{}, Peers: nd.p}
+				if err := nd.sh.Start(); err != nil {
+					out.Harness = "sharder start: " + err.Error()
+					return
+				}
 			}
 			nd.running = true
 		}
@@ -238,6 +247,9 @@ func runPeers(t *testing.T, p *Plan) *Outcome {
 				}
 				out.Logf("%s node%d peers=%v", where, nd.idx, got)
 			}
+			if converged && p.On("with_sharder") {
+				shardersAgree(p, out, nodes, where)
+			}
 		}
 		var last int64
 		for _, op := range p.Ops {
@@ -299,4 +311,59 @@ func runPeers(t *testing.T, p *Plan) *Outcome {
 		out.Harness = "panic: " + pt
 	}
 	return out
+}
+
+// shardersAgree (C17 in World D): once membership has converged, every node's
+// sharder names, for every trace ID, an owner that is in the peer list the node
+// sees, and nodes seeing the same list name the same owner.
+func shardersAgree(p *Plan, out *Outcome, nodes []*peerNode, where string) {
+	const site = "sharder.DeterministicSharder on internal/peer.RedisPubsubPeers"
+	type view struct {
+		nd   *peerNode
+		list string
+	}
+	var views []view
+	crashed := false
+	for _, nd := range nodes {
+		if !nd.running && nd.inc > 0 {
+			crashed = true
+		}
+		if !nd.running || nd.sh == nil {
+			continue
+		}
+		got, err := nd.p.GetPeers()
+		if err != nil {
+			continue
+		}
+		g := append([]string(nil), got...)
+		sort.Strings(g)
+		views = append(views, view{nd, fmt.Sprint(g)})
+		in := map[string]bool{}
+		for _, a := range got {
+			in[a] = true
+		}
+		for k := 0; k < 32; k++ {
+			tid := fmt.Sprintf("%032x", H(p.Seed, "tid", k))
+			if o := nd.sh.WhichShard(tid).GetAddress(); !in[o] {
+				out.Violate("C17", "owner_not_a_peer", site, "%s: node %d sees peers %v but names %s owner of trace %s", where, nd.idx, g, o, tid)
+				break
+			}
+		}
+	}
+	for i := 1; i < len(views); i++ {
+		if views[i].list != views[0].list {
+			continue
+		}
+		for k := 0; k < 32; k++ {
+			tid := fmt.Sprintf("%032x", H(p.Seed, "tid", k))
+			a, b := views[0].nd.sh.WhichShard(tid).GetAddress(), views[i].nd.sh.WhichShard(tid).GetAddress()
+			if a != b {
+				out.Violate("C17", "nodes_disagree_on_owner", site, "%s: nodes %d and %d both see %s; for trace %s one says %s, the other %s", where, views[0].nd.idx, views[i].nd.idx, views[0].list, tid, a, b)
+				break
+			}
+		}
+	}
+	if crashed && len(views) > 0 {
+		out.Probe("sharder_on_redis_peers_after_crash")
+	}
 }
